@@ -6,5 +6,6 @@ git -C /repo apply "$D/patch.diff" || { echo "patch does not apply"; exit 2; }
 ./check "$PID" --tier "$TIER" 2>/tmp/seedtest_err.log | tail -5
 RC=$?
 git -C /repo checkout -- .
+python3 /verif/tools/prepare.py >/dev/null 2>&1   # regenerate Gen/ and glue for the clean tree
 git -C /repo status --short | head -3
 exit $RC
